@@ -617,7 +617,16 @@ def match_known(v, known):
     return None
 
 
+def cleanup_build_output(prop):
+    """goto binaries of this check's harness crates (hundreds of MB per run, one directory per
+    build hash) are not needed once the results are classified"""
+    import glob
+    for d in glob.glob(os.path.join(K.TARGET, "kani", "*", "debug", "build", "vt_%s_*" % prop.lower())):
+        shutil.rmtree(d, ignore_errors=True)
+
+
 def finish(rep, level_rule, assumptions, outside):
+    cleanup_build_output(rep.prop)
     known = load_known()
     wall = time.time() - rep.t0
     unlisted = []
